@@ -4,7 +4,7 @@
 //! stdin, one scenario per line:
 //!   wait cause=<c> sup=<0|1> kids=<n> park=<0|1> ; <op> ; <op> ; ...
 //!     c ::= stop | drain | kill | killhandler | err | panic | stopkill | prefail | prepanic
-//!         | postfail | pserr | pspanic
+//!         | postfail | pserr | pspanic | prekill | postkill
 //!     op ::= w <id> <kind> <tmo>   spawn waiter task <id>; kind = wait|stopw|killw|drainw|join|inline,
 //!                                  tmo = none|short|long   (short = 500 ms, long = 1 h)
 //!                                  inline = wait(None) polled by hand with a waker that re-polls the
@@ -348,9 +348,9 @@ async fn run_scenario(line: &str) -> String {
             "prepanic" => Res::Panic,
             _ => Res::Ok,
         },
-        pre_gate: matches!(cause.as_str(), "prefail" | "prepanic").then(|| start_gate.clone()),
+        pre_gate: matches!(cause.as_str(), "prefail" | "prepanic" | "prekill").then(|| start_gate.clone()),
         post_start: if cause == "postfail" { Res::Err } else { Res::Ok },
-        post_start_gate: (cause == "postfail").then(|| start_gate.clone()),
+        post_start_gate: matches!(cause.as_str(), "postfail" | "postkill").then(|| start_gate.clone()),
         ps: match cause.as_str() {
             "pserr" => Res::Err,
             "pspanic" => Res::Panic,
@@ -373,7 +373,7 @@ async fn run_scenario(line: &str) -> String {
     let (marker, _marker_h) = Actor::spawn(None, Kid, ()).await.expect("marker");
 
     // the actor under observation
-    let instant = matches!(cause.as_str(), "prefail" | "prepanic");
+    let instant = matches!(cause.as_str(), "prefail" | "prepanic" | "prekill");
     let (main_cell, join): (ActorCell, AnyJoin) = if instant {
         // pre_start failures: the cell must exist before pre_start fails so that waiters can
         // register; spawn_instant returns it immediately (no supervisor in this mode)
@@ -498,7 +498,7 @@ async fn run_scenario(line: &str) -> String {
                 "drain" => {
                     let _ = main_cell.drain();
                 }
-                "kill" | "killhandler" => main_cell.kill(),
+                "kill" | "killhandler" | "prekill" | "postkill" => main_cell.kill(),
                 "err" => {
                     let r: ActorRef<Msg> = main_cell.clone().into();
                     let _ = r.cast(Msg::Err);
